@@ -531,7 +531,8 @@ Proof.
     rewrite (ok_lk _ _ _ _ _ Hoka), decide_True by done. simpl. split; [done|].
     apply activation_Post; try done. apply Hoka.
   - destruct (Inv_member _ _ _ _ HI Ht) as (nt & Et & Hokt).
-    rewrite Et, (ok_lk _ _ _ _ _ Hokt), decide_True by done. simpl. split; [done|].
+    rewrite Et, (ok_lk _ _ _ _ _ Hokt), decide_True by done.
+    rewrite (ok_act _ _ _ _ _ Hokt), EG. simpl. split; [done|].
     apply activation_Post; try done. apply Hoka.
 Qed.
 
